@@ -22,7 +22,10 @@ finally:
 for fn in os.listdir(src):
     if fn in ('patch.diff', 'patch.rebased.diff', 'meta.json', 'confirm.log'):
         continue
-    shutil.copy(os.path.join(src, fn), os.path.join(dst, fn))
+    if os.path.isdir(os.path.join(src, fn)):
+        shutil.copytree(os.path.join(src, fn), os.path.join(dst, fn), dirs_exist_ok=True)
+    else:
+        shutil.copy(os.path.join(src, fn), os.path.join(dst, fn))
 meta = {}
 try:
     meta = json.load(open(os.path.join(src, 'meta.json')))
